@@ -27,7 +27,9 @@ Implementation entry points driven (real code from $VERIF_REPO/src):
       coordinate system with its planes listed in any order (ascending, descending, interleaved, rotated,
       shuffled; complete or with gaps; series of single-frame sources or one multi-frame source; sources with
       another geometry / number of planes than the map) and in the SLIDE coordinate system aligned with the
-      frames of a TILED_FULL / TILED_SPARSE (frames in any order) source -> hd.Image.from_dataset / hd.imread
+      frames of a TILED_FULL / TILED_SPARSE (frames in any order) source, without plane_positions or with the
+      source's positions in source order / in another order / of a rectangular part of the tile grid
+      (declared TotalPixelMatrixRows / Columns, get_total_pixel_matrix) -> hd.Image.from_dataset / hd.imread
       (eager, lazy) -> get_volume_geometry, get_volume(...), per-frame PlanePositionSequence + get_frame,
   hd.seg.create_segmentation_pyramid(...) from one source + down-sampling factors, and (downsample_factors=None)
       from several source images of one pyramid with one or with as many masks, and from one source image
@@ -82,7 +84,8 @@ MODELLED = ('image.py _standardize_slice_indices, _standardize_row_column_indice
             'pixel measures are recorded (the caller\'s when given, else the sources\'; no sorting, omission or '
             'spacing inference), the count guard (ValueError), frame k = (plane position k, plane k of the pixel '
             'array); the read-back of a parametric map goes through the same stored / get_volume model; tiled '
-            'parametric maps aligned with their source through run_tiled. *_rd cases (object written to a file '
+            'parametric maps through pm_tiled_matrix / run_pm_tiled (preserved -> the source\'s origin and size; explicit '
+            'positions in another order / of a rectangular part: lexsort-first origin, lexsort-last tile + tile size - 1). *_rd cases (object written to a file '
             'and opened again, eagerly or with lazy_frame_retrieval, from bytes / stream / path) are compared '
             'against the reader-free model term: HOW a stored object is opened is NOT an input of the model')
 STRATA = ['std_slice', 'std_slice_err', 'std_rc', 'std_rc_err', 'vol', 'vol_sub', 'vol_sub_err', 'src', 'src_irregular',
